@@ -17,7 +17,8 @@
 //!   16,t,kind,id[,size] create task t: call the API, do NOT poll the returned future (`1` = `16` then `2,t`)
 //!   2,t                 poll task t once
 //!   3,t                 drop task t's (pending) future
-//!   4,k,id              peer sends one ack: k 1 PUBACK, 2 PUBREC, 3 PUBCOMP, 4 SUBACK, 5 UNSUBACK
+//!   4,k,id              peer sends one ack: k 1 PUBACK, 2 PUBREC, 3 PUBCOMP, 4 SUBACK, 5 UNSUBACK,
+//!                       6 PUBREC with a failure reason code (v5; v3: plain PUBREC)
 //!   5,k1,id1,k2,id2,..  several acks in ONE write
 //!   6,t                 task t (holding a QoS2 receipt) calls release() and polls it once
 //!   7,t                 task t drops its receipt without releasing
@@ -395,7 +396,9 @@ fn ack_bytes(v5: bool, k: u64, id: u64) -> Vec<u8> {
     let (h, l) = ((id >> 8) as u8, id as u8);
     match (k, v5) {
         (1, _) => vec![0x40, 2, h, l],
-        (2, _) => vec![0x50, 2, h, l],
+        (2, _) | (6, false) => vec![0x50, 2, h, l],
+        // PUBREC refusing the publish (NotAuthorized): the sender's exchange still has to be brought to its end
+        (6, true) => vec![0x50, 3, h, l, 0x87],
         (3, _) => vec![0x70, 2, h, l],
         (4, false) => vec![0x90, 3, h, l, 0],
         (4, true) => vec![0x90, 4, h, l, 0, 0],
